@@ -126,11 +126,14 @@ type variantResult struct {
 	Reported []string `json:"reported_rules,omitempty"`
 	Expected []string `json:"expected_rules,omitempty"`
 	Detail   string   `json:"detail,omitempty"`
+	Seconds  float64  `json:"seconds"`
 }
 
 // analyseVariant applies v to a scratch copy of repo and runs this binary on it for one property.
-func analyseVariant(repo string, v variant, prop string) variantResult {
-	res := variantResult{Variant: v.Name, Kind: v.Kind, Origin: v.Origin, Expected: v.Expect}
+func analyseVariant(repo string, v variant, prop string) (res variantResult) {
+	t0 := time.Now()
+	defer func() { res.Seconds = time.Since(t0).Seconds() }()
+	res = variantResult{Variant: v.Name, Kind: v.Kind, Origin: v.Origin, Expected: v.Expect}
 	tmp, err := os.MkdirTemp("", "restcheck-variant-")
 	if err != nil {
 		res.Outcome, res.Detail = "skipped", err.Error()
@@ -295,6 +298,9 @@ func thoroughImpl(prog *Program, p *Property, c *Ctx, seed int64, extra map[stri
 		}
 	}
 	extra["build_configurations"] = cfg
+	if os.Getenv("RESTCHECK_TIMING") != "" {
+		fmt.Fprintf(os.Stderr, "timing: build configurations %.1fs\n", time.Since(start).Seconds())
+	}
 
 	// (b) sensitivity suite
 	results := runVariants(prog.Repo, p.ID, seed)
@@ -318,6 +324,12 @@ func thoroughImpl(prog *Program, p *Property, c *Ctx, seed int64, extra map[stri
 		"expectation_fails": fails,
 	}
 
+	if os.Getenv("RESTCHECK_TIMING") != "" {
+		fmt.Fprintf(os.Stderr, "timing: sensitivity suite done at %.1fs\n", time.Since(start).Seconds())
+		for _, r := range results {
+			fmt.Fprintf(os.Stderr, "timing:   %-40s %-8s %.1fs\n", r.Variant, r.Outcome, r.Seconds)
+		}
+	}
 	// (c) cross-reference lints (recorded only)
 	extra["lint_cross_reference"] = lintCrossReference(prog)
 	extra["thorough_wall_s"] = time.Since(start).Seconds()
